@@ -237,6 +237,27 @@ func (c *BytesCode) Filter(_ *FieldQuery) Code {
 	return c
 }
 
+// RecursiveCode stands for a slice or map type met again while it is being compiled: the value is
+// encoded by the program of that type, entered like the program of a recursive struct.
+type RecursiveCode struct {
+	typ *runtime.Type
+}
+
+func (c *RecursiveCode) Kind() CodeKind {
+	return CodeKindRecursive
+}
+
+func (c *RecursiveCode) ToOpcode(ctx *compileContext) Opcodes {
+	recursive := newRecursiveCode(ctx, c.typ, &CompiledCode{})
+	ctx.incIndex()
+	*ctx.recursiveCodes = append(*ctx.recursiveCodes, recursive)
+	return Opcodes{recursive}
+}
+
+func (c *RecursiveCode) Filter(_ *FieldQuery) Code {
+	return c
+}
+
 type SliceCode struct {
 	typ   *runtime.Type
 	value Code
@@ -268,7 +289,9 @@ func (c *SliceCode) ToOpcode(ctx *compileContext) Opcodes {
 	codes.Last().Next = elemCode
 	elemCode.Next = codes.First()
 	elemCode.End = end
-	return Opcodes{header}.Add(codes...).Add(elemCode).Add(end)
+	all := Opcodes{header}.Add(codes...).Add(elemCode).Add(end)
+	ctx.structTypeToCodes[uintptr(unsafe.Pointer(c.typ))] = all
+	return all
 }
 
 func (c *SliceCode) Filter(query *FieldQuery) Code {
@@ -314,7 +337,9 @@ func (c *ArrayCode) ToOpcode(ctx *compileContext) Opcodes {
 	elemCode.Next = codes.First()
 	elemCode.End = end
 
-	return Opcodes{header}.Add(codes...).Add(elemCode).Add(end)
+	all := Opcodes{header}.Add(codes...).Add(elemCode).Add(end)
+	ctx.structTypeToCodes[uintptr(unsafe.Pointer(c.typ))] = all
+	return all
 }
 
 func (c *ArrayCode) Filter(query *FieldQuery) Code {
@@ -364,7 +389,9 @@ func (c *MapCode) ToOpcode(ctx *compileContext) Opcodes {
 	header.End = end
 	key.End = end
 	value.End = end
-	return Opcodes{header}.Add(keyCodes...).Add(value).Add(valueCodes...).Add(key).Add(end)
+	all := Opcodes{header}.Add(keyCodes...).Add(value).Add(valueCodes...).Add(key).Add(end)
+	ctx.structTypeToCodes[uintptr(unsafe.Pointer(c.typ))] = all
+	return all
 }
 
 func (c *MapCode) Filter(query *FieldQuery) Code {
